@@ -29,18 +29,30 @@ REQUIRE = {"container_succeeded": 500, "container_failed": 500, "suspension_fini
 
 def cases(tier, seed, shard, nshards):
     rng = rng_for(ID, seed, shard)
+    if tier == "thorough" or shard < 3:
+        for _b in range(1 if tier == "quick" else 2):
+            yield _exec.busy_case(rng, 4500 if tier == "quick" else 9000, p_suspend=0.1)
     for i in range(N_MIX[tier]):
         kw = dict(steps=rng.choice([40, 80, 160]), p_bad=rng.choice([0.0, 0.02, 0.04]),
                   bad_kinds=["unknown-pool", "unknown-pool", "unknown-pool", "reassign", "suspend-unknown", "suspend-wrong-pool"],
                   integer_sizes=rng.random() < 0.7, p_suspend=rng.choice([0.2, 0.6, 1.0]), mem_heavy=rng.random() < 0.6,
                   p_unready=0.0, pools=rng.choice([1, 2, 3, 4]), npipes=rng.randint(3, 14), p_assign=0.8, maxn=4)
-        if tier == "thorough" and i % 1500 == 0:
-            kw.update(steps=8000, npipes=40, p_bad=0.0, drain=3000)
+        if (tier == "thorough" and i % 1500 == 0) or (tier == "quick" and i == 7 and shard < 6):
+            kw.update(steps=9000 if tier == "thorough" else 5000, npipes=2500, p_bad=0.0, drain=3000, pools=1, maxn=2, mem_heavy=False, p_suspend=0.2)
         yield _exec.mix_case(rng, i, **kw)
     for i in range(N_SIM[tier]):
         yield _sim.random_sim_case(rng, small=True, algos=_sim.ALGOS_PLUS)
     if tier == "thorough" and shard < 4:
         yield _sim.regression_case(shard)
+    # scale cases: large in one dimension (one per shard for the first shards; all of them, twice, in the thorough tier)
+    _kinds = ["many-small", "storm", "many-small"]
+    for _j, _kd in enumerate(_kinds * (1 if tier == "quick" else 2)):
+        if tier == "thorough" or _j == shard:
+            _k, _, _a = _kd.partition(":")
+            yield _sim.scale_case(rng, _k, algo=_a or None)
+    if tier == "thorough":
+        for _k in range(2):
+            yield _sim.long_sim_case(rng, algos=_sim.ALGOS_PLUS)
 
 
 def run_case(case, mon):
